@@ -300,6 +300,19 @@ def run_property(ctx, prop, replay=None):
             d["obligation"] = "hypotheses:pwf_b-holds-of-exported-graphs"
             ctx.fail("C02:theorem-hypotheses-not-met", "an exported graph does not meet the hypotheses (pwf_b) of C02_no_path_errors", d, False)
         ctx.coverage["graphs_covered_by_C02_no_path_errors"] = len(cases) - len(res["trav_pwf"])
+        # the hypotheses of C02_exit_means_done_any_workers (ewf_b): the form of an ordinary test of a worker is not shared by
+        # another node that worker decides on; dry runs are outside by construction (every node is dry there)
+        res = coq_failing(ctx, travgen.IMPORTS, "trav_case", [c["term"] for c in cases], ["trav_ewf"],
+                          shard=max(1, len(cases) // 16 + 1), tag="ewf", timeout=900)
+        dry = [k for k in res["trav_ewf"] if cases[k]["spec"]["node_params"].get("dry_run") == "yes"]
+        other = [k for k in res["trav_ewf"] if k not in dry]
+        ctx.obligation("hypotheses:ewf_b-holds-of-exported-graphs", "correspondence", not other,
+                       f"{len(res['trav_ewf'])} of {len(cases)} exported graphs do not meet ewf_b, {len(dry)} of them dry runs")
+        for k in other[:1]:
+            d = travgen.replay_data(cases[k])
+            d["obligation"] = "hypotheses:ewf_b-holds-of-exported-graphs"
+            ctx.fail("C02:theorem-hypotheses-not-met", "an exported graph does not meet the hypotheses (ewf_b) of C02_exit_means_done_any_workers", d, False)
+        ctx.coverage["graphs_covered_by_C02_exit_means_done_any_workers"] = len(cases) - len(res["trav_ewf"])
     if prop == "C03":
         # the hypotheses of C03_present_setup_never_executed (cls_all_b: the copies of every ordinary stateful test with the
         # global reuse scope lie in the graph, see the same class and agree on their kind) on every exported graph
